@@ -22,6 +22,7 @@
   (`cur == &cacheStmt` / `cur.Stmt == stmt.Stmt`).  `genCfg` is what the current source tree does.
 -/
 import GormModel.Gen.StmtCacheFacts
+import GormModel.Gen.StmtCacheTextFacts
 namespace Gorm.SC
 
 /-- which `delete(db.Stmts, query)` sites compare the cached entry with the caller's own before deleting -/
@@ -361,5 +362,31 @@ def quiescentB (s : St) : Bool :=
   (List.range s.nT).all (fun t => isFin s t) &&
   (List.range s.nE).all (fun e => !(s.entries e).closeReq || (s.entries e).closeDone) &&
   (List.range s.nH).all (fun h => !(s.handles h).closeReq || (s.handles h).closed)
+
+/-! ### QueryRowContext (DB.Row) — prepare_stmt.go :199-205 (PreparedStmtDB), :274-280 (PreparedStmtTX)
+
+    stmt, err := db.prepare(ctx, …, query)
+    if err == nil { return stmt.QueryRowContext(ctx, args...) }
+    return &sql.Row{}
+
+`*sql.Row` carries its error inside (`Row.err`, returned by Scan).  The error path returns an EMPTY row: no error inside and
+nil rows, so the caller's `Scan` dereferences nil — the error of `prepare` (ErrInvalidDB of a closed cache, a failed
+PrepareContext) is dropped.  `rowDropsErr` is regenerated from the source (`Gen.rowErrPaths`). -/
+
+/-- what `Row()` hands to the caller -/
+inductive RowOut
+  | row                -- a row of the executed statement (same as the uncached path)
+  | errRow (r : Res)   -- a row that answers Scan with the error of `prepare`
+  | emptyRow           -- `&sql.Row{}`: Scan panics (nil pointer dereference)
+deriving DecidableEq, Repr
+
+/-- `prep` = how `prepare` ended: `none` = a usable statement, `some r` = the error class it returned -/
+def queryRow (dropsErr : Bool) (prep : Option Res) : RowOut :=
+  match prep with
+  | none => .row
+  | some r => if dropsErr then .emptyRow else .errRow r
+
+/-- the CURRENT source tree: does some QueryRowContext answer a failed `prepare` with the empty row literal? -/
+def rowDropsErr : Bool := Gen.rowErrPaths.any fun p => p.2 == "&sql.Row{}"
 
 end Gorm.SC
